@@ -37,7 +37,8 @@ def gen_case(rng, i):
     n = int(rng.integers(m, m + 6))
     cmax = 50.0 if name == "AlignedMTL" else (1e2 if dname == "float32" else 1e4)
     cond = float(10 ** rng.uniform(0, np.log10(cmax)))
-    scale = float(10 ** rng.uniform(-6, 6)) if rng.random() < 0.5 else 1.0
+    # "all scales": 60 decades in float64, 24 in float32 (Gramians stay representable)
+    scale = float(10 ** (rng.uniform(-30, 30) if dname == "float64" else rng.uniform(-12, 12))) if rng.random() < 0.6 else 1.0
     J = M.well_conditioned(rng, m, n, cond=cond, scale=1.0)
     if rng.random() < 0.5:
         J = J * (10.0 ** rng.uniform(-1, 1, size=(m, 1)))  # unequal row norms (keeps full row rank; condition re-measured below)
